@@ -30,6 +30,7 @@ def interpret(repo, gamma_zero=False):
     lap = LinOp("psi_laplacian", apply=lambda I, x: Lpsi if (isinstance(x, Rat) and x == psi) else
                 (_ for _ in ()).throw(Unsupported("psi_laplacian applied to something other than psi")))
     decided = []
+    special_cases = []
 
     def policy(test, fr):
         # the only data-dependent branch: refuse when some discriminant is negative.
@@ -46,6 +47,23 @@ def interpret(repo, gamma_zero=False):
                 nots += 1
                 t_ = t_.operand
             return nots % 2 == 1
+        # a special case selected by comparing an input with a constant (`if gamma == 0:`): the generic run takes the branch of a
+        # generic value, the run with that input set to the constant (gamma_zero) takes the other one - both are judged
+        t_, nots = test, 0
+        while isinstance(t_, ast.UnaryOp) and isinstance(t_.op, ast.Not):
+            nots += 1
+            t_ = t_.operand
+        if isinstance(t_, ast.Compare) and len(t_.ops) == 1 and isinstance(t_.ops[0], (ast.Eq, ast.NotEq)):
+            try:
+                a_, b_ = ip.eval(t_.left, fr), ip.eval(t_.comparators[0], fr)
+            except Unsupported:
+                return None
+            if isinstance(a_, (Rat, int, float)) and isinstance(b_, (Rat, int, float)) and (isinstance(a_, Rat) or isinstance(b_, Rat)):
+                d_ = a_ - b_
+                eq = d_.is_zero() if isinstance(d_, Rat) else d_ == 0
+                special_cases.append((ast.unparse(t_), eq))
+                r_ = eq if isinstance(t_.ops[0], ast.Eq) else not eq
+                return r_ if nots % 2 == 0 else not r_
         return None
     ip.branch_policy = policy
     kw = dict(psi=psi, abs_sq_psi=a2, mu=mu, epsilon=eps, gamma=gamma, u=u, dt=dt, psi_laplacian=lap)
@@ -106,13 +124,13 @@ def check(ctx):
         f0, ip0, ret0, S0, _ = interpret(repo, gamma_zero=True)
         x0 = ret0[1]
         spec0 = euler_update(S0["T"], S0["psi"], S0["a2"], S0["mu"], S0["eps"], S0["gamma"], S0["u"], S0["dt"], S0["Lpsi"])
-        ok = x0 == spec0["w"].abs2()
-        det = {"x_at_gamma0": str(x0)[:300]}
+        ok = x0 == spec0["w"].abs2() and ret0[0] == spec0["w"]
+        det = {"x_at_gamma0": str(x0)[:300], "psi_at_gamma0": str(ret0[0])[:300], "documented_w_at_gamma0": str(spec0["w"])[:300]}
     except (AlgError, Unsupported) as e:
         ok, det = False, {"error": str(e)}
-    ctx.ob("R02.4", "at gamma = 0 (z = 0): new_sq_psi == |w|^2, finite", ok, detail=det, where=f.fq,
+    ctx.ob("R02.4", "at gamma = 0 (z = 0): psi' == w and new_sq_psi == |w|^2 with the documented w, finite", ok, detail=det, where=f.fq,
            construct="branch at z = 0", loc=L,
-           message=f"at gamma=0 the returned |psi'|^2 is not |w|^2 / is undefined: {det}",
+           message=f"at gamma=0 the returned (psi', |psi'|^2) is not (w, |w|^2) with the documented w, or is undefined: {det}",
            consequence="gamma = 0 or psi = 0 at a site gives inf/NaN (wrong branch or division by |z|^2)")
     den_ok = not (x * (spec["b"] - T.sqrt_of(spec["disc"])) == 2 * spec["w"].abs2())
     ctx.ob("R02.4", "denominator is (2c+1) + sqrt(disc), not (2c+1) - sqrt(disc)", den_ok, where=f.fq,
